@@ -366,8 +366,8 @@ func flattenScenarios(tier string, seed int64, scratch string) ([]*Case, []strin
 		for id := range fs.Docs {
 			b.Files[id] = scenarioFiles[id]
 		}
-		b.Feat = Features{NAux: len(fs.Docs) - 1, Collision: fs.C != "none",
-			Anon:      fs.T == "anonprop" || fs.T == "anonitems" || fs.T == "anonallof" || fs.T == "anonsibling",
+		b.Feat = Features{NAux: len(fs.Docs) - 1, Collision: fs.C != "none" || fs.T == "anonimport",
+			Anon:      fs.T == "anonprop" || fs.T == "anonitems" || fs.T == "anonallof" || fs.T == "anonsibling" || fs.T == "anonimport",
 			SharedPtr: fs.T == "sharedparam" || fs.T == "sharedresp",
 			// a pointer nested in a pointer target belongs to the wider class W+ (C09 only)
 			// ... and so do holders under keywords that Swagger 2.0 does not have (patternProperties, anyOf, oneOf, not, nested definitions)
